@@ -38,6 +38,22 @@ def global_state():
     return st
 
 
+class _EnvCategories:
+    """warning classes that announce 'this call will stop working': python's own and numpy's visible one"""
+
+    def __iter__(self):
+        cats = [DeprecationWarning, PendingDeprecationWarning, FutureWarning]
+        try:
+            import numpy as np
+            cats.append(np.exceptions.VisibleDeprecationWarning)
+        except Exception:
+            pass
+        return iter(cats)
+
+
+ENV_CATEGORIES = _EnvCategories()
+
+
 class FpMonitor:
     """Floating-point-event tap.  numpy's error mode is set to 'call' around every case; the callback sees every divide / overflow /
     underflow / invalid event and attributes it to the library (some frame of the raising call lies in the library's source directory)
@@ -147,8 +163,11 @@ def run_one(prop, case, ctx):
     old = signal.signal(signal.SIGALRM, on_alarm)
     signal.alarm(int(os.environ.get("RTMON_CASE_TIMEOUT", "150")))      # generous wall-clock watchdog: firing is inconclusive, never a verdict
     try:
-        with warnings.catch_warnings():
+        with warnings.catch_warnings(record=True) as wlog:
             warnings.simplefilter("ignore")
+            # warning tap: deprecation-class warnings attributed to a line of the library itself are recorded (everything else stays ignored)
+            for cat_ in ENV_CATEGORIES:
+                warnings.filterwarnings("always", category=cat_, module=r"npstructures(\.|$)")
             try:
                 if os.environ.get("RTMON_ERRSTATE") == "raise":
                     import numpy as np
@@ -156,6 +175,22 @@ def run_one(prop, case, ctx):
                         res = prop.run(case)
                 else:
                     res = FP.run(prop, case)
+                if wlog and res["verdict"] == "held" and not os.environ.get("RTMON_NO_ENV_TWIN"):
+                    # environment twin: the same case once more in a process that treats these warnings as errors (python -W error,
+                    # pytest's filterwarnings = error): the driver's own oracle decides whether the calls are still answered
+                    ctx.tick("env-twin:warnings-as-errors")
+                    first_ = wlog[0]
+                    where_ = "%s:%s %s: %s" % (os.path.basename(str(first_.filename)), first_.lineno, first_.category.__name__, str(first_.message)[:160])
+                    with warnings.catch_warnings():
+                        warnings.simplefilter("ignore")
+                        for cat_ in ENV_CATEGORIES:
+                            warnings.filterwarnings("error", category=cat_, module=r"npstructures(\.|$)")
+                        res2 = FP.run(prop, case)
+                    if res2["verdict"] == VIOLATED:
+                        res = violated("with deprecation warnings turned into errors (python -W error, pytest filterwarnings=error) -- the library line %s -- the same case fails: %s" % (where_, res2.get("msg")),
+                                       list(res2["tags"]) + ["env:warnings-as-errors"])
+                    else:
+                        res["tags"] = list(res["tags"]) + ["warning-in-library"]
             finally:
                 signal.alarm(0)
                 signal.signal(signal.SIGALRM, old)
